@@ -551,7 +551,6 @@ fn main() {
             }
             let cfg = DevConfig { bound, wall_cap: left, max_execs: u64::MAX, max_deviation_pos: 0 };
             let mut r = Report::new();
-            r.sample_cap = if per_pop.len() % 7 == 3 { 1 } else { 0 };
             if let Err(m) = explore_deviations(&cfg, |p, keep| run(pop, horizon, p, keep), &mut r) {
                 machinery_error(&ctx.id, &m);
             }
@@ -570,12 +569,18 @@ fn main() {
             distinct_traces += r.extras.get("distinct_observation_traces").and_then(|v| v.as_u64()).unwrap_or(0);
             per_pop.push(json!({"population": pop_json(pop), "executions": r.evaluations}));
             r.extras.clear();
-            let cap = r.sample_cap;
-            r.sample_cap = 0;
-            let _ = cap;
+            // one sample (the one with most events) from every 5th population
+            let mut keep: Vec<Value> = vec![];
+            if per_pop.len() % 5 == 2 {
+                if let Some(s) = r.samples.iter().max_by_key(|s| s["choices"].as_array().map(|a| a.len()).unwrap_or(0)) {
+                    keep.push(s.clone());
+                }
+            }
+            r.samples = keep;
+            rep.sample_cap = 64;
             rep.merge_in(r);
         }
-        rep.sample_cap = 8;
+        rep.samples.truncate(10);
         rep.extra("distinct_nontrivial_by_construction", json!(by_dev_total.iter().skip(1).sum::<u64>()));
         rep.extra("executions_by_deviations", json!(by_dev_total));
         rep.extra("deviation_bound", json!(bound));
